@@ -385,10 +385,179 @@ theorem siftVars_partial (S : SwapOK P R) : ∀ (names : List String) (m m' : Mg
       obtain ⟨hP2, hR2, hn2, hl2⟩ := ih m1 m' hP1 h
       exact ⟨hP2, S.trans _ _ _ hR1 hR2, hn2.trans hn1, Nat.le_trans hl2 hl1⟩
 
+/-! ### sifting: the only possible failures are its own size assertions -/
+
+/-- returned normally with `Q`, or schedule mismatch (model), or `AssertionError` -/
+def OkSchedAssert {α} (Q : α → Mgr → Prop) : Except Err α × Mgr → Prop
+  | (.ok a, m') => Q a m'
+  | (.error e, _) => e = .sched ∨ e = .assertion
+
+theorem OkSchedAssert.of_sched {α} {Q : α → Mgr → Prop} {r : Except Err α × Mgr}
+    (h : OkOrSched Q r) : OkSchedAssert Q r := by
+  obtain ⟨r, m⟩ := r
+  cases r with
+  | ok a => exact h
+  | error e => exact Or.inl h
+
+theorem OkSchedAssert.bind {α β} {x : M α} {f : α → M β} {m : Mgr} {Q : α → Mgr → Prop}
+    {Q' : β → Mgr → Prop} (hx : OkSchedAssert Q (x m))
+    (hf : ∀ a m1, Q a m1 → OkSchedAssert Q' (f a m1)) : OkSchedAssert Q' ((x >>= f) m) := by
+  rw [M.bind_eq]
+  generalize x m = r at hx
+  obtain ⟨r, m1⟩ := r
+  cases r with
+  | ok a => exact hf a m1 hx
+  | error e => exact hx
+
+theorem assocSet_ne_nil (l : List (Nat × Nat)) (k v : Nat) : assocSet l k v ≠ [] := by
+  unfold assocSet
+  split
+  · next h =>
+    intro e
+    have := List.map_eq_nil_iff.mp e
+    subst this
+    simp at h
+  · simp
+
+/-- `_shift` between two different levels records at least one size -/
+theorem shiftLoop_sizes_ne : ∀ (f : Nat) (i e d : Int) (sizes : List (Nat × Nat)) (m : Mgr)
+    (sz : List (Nat × Nat)) (m' : Mgr), shiftLoop f i e d sizes m = (.ok sz, m') →
+    (sizes ≠ [] ∨ i ≠ e) → sz ≠ [] := by
+  intro f
+  induction f with
+  | zero =>
+    intro i e d sizes m sz m' h hne
+    unfold shiftLoop at h
+    by_cases hie : i = e
+    · rw [if_pos hie] at h
+      cases h
+      rcases hne with h1 | h1
+      · exact h1
+      · exact absurd hie h1
+    · rw [if_neg hie] at h; cases h
+  | succ f ih =>
+    intro i e d sizes m sz m' h hne
+    unfold shiftLoop at h
+    by_cases hie : i = e
+    · rw [if_pos hie] at h
+      cases h
+      rcases hne with h1 | h1
+      · exact h1
+      · exact absurd hie h1
+    · rw [if_neg hie] at h
+      obtain ⟨r, m1, _, h2⟩ := M.bind_ok_inv h
+      exact ih _ _ _ _ _ _ _ h2 (Or.inl (assocSet_ne_nil _ _ _))
+
+theorem shift_sizes_ne (s e : Nat) (m : Mgr) (sz : List (Nat × Nat)) (m' : Mgr)
+    (h : shift s e m = (.ok sz, m')) (hse : s ≠ e) : sz ≠ [] := by
+  unfold shift at h
+  obtain ⟨m0, m0', g0, h0⟩ := M.bind_ok_inv h
+  obtain ⟨e1, e2⟩ := M.get_ok_inv g0
+  subst e1; subst e2
+  obtain ⟨_, ma, ga, ha⟩ := M.bind_ok_inv h0
+  obtain ⟨_, ea⟩ := M.assert_ok_inv ga
+  subst ea
+  obtain ⟨_, mb, gb, hb⟩ := M.bind_ok_inv ha
+  obtain ⟨_, eb⟩ := M.assert_ok_inv gb
+  subst eb
+  exact shiftLoop_sizes_ne _ _ _ _ _ _ _ _ hb (Or.inr (by omega))
+
+theorem argMin_some (l : List (Nat × Nat)) (h : l ≠ []) : ∃ k, argMin l = some k := by
+  cases l with
+  | nil => exact absurd rfl h
+  | cons a rest => obtain ⟨k, v⟩ := a; exact ⟨_, rfl⟩
+
+/-- declared variables stay declared through a shift -/
+theorem shift_outcome (S : SwapOK P R) (m : Mgr) (hP : P m) (s e : Nat) (hs : s < m.nvars) :
+    OkSchedAssert (fun _ m' => P m' ∧ R m m' ∧ m'.nvars = m.nvars ∧
+        ∀ v, m.tbl.vars.contains v = true → m'.tbl.vars.contains v = true) (shift s e m) := by
+  by_cases he : e < m.nvars
+  · refine OkSchedAssert.of_sched (OkOrSched.mono ?_ (shift_order S m hP s e hs he))
+    intro _ m' ⟨hP', hR', hmv⟩
+    refine ⟨hP', hR', hmv.1, ?_⟩
+    intro v hv
+    rw [TreeMap.contains_eq_isSome_getElem?] at hv ⊢
+    obtain ⟨i, hi⟩ := Option.isSome_iff_exists.mp hv
+    rw [moved_vars S hP hP' (shiftPerm_inv s e) hmv hi]; rfl
+  · unfold shift
+    simp only [M.bind_eq, M.get_eq, hs, he, decide_true, decide_false, M.assert_true, M.assert_false]
+    exact Or.inr rfl
+
+/-- **`_reorder_var`, all outcomes**: with at least two variables the call returns normally, or
+the model reports a schedule mismatch, or an `AssertionError` is raised (by one of the two size
+checks, or by `_shift`'s range check on the selected level) — nothing else. -/
+theorem reorderVar_outcome (S : SwapOK P R) (m : Mgr) (hP : P m) (var : String)
+    (hv : m.tbl.vars.contains var = true) (h2 : 2 ≤ m.nvars) :
+    OkSchedAssert (fun _ m' => P m' ∧ R m m' ∧ m'.nvars = m.nvars ∧
+        ∀ v, m.tbl.vars.contains v = true → m'.tbl.vars.contains v = true) (reorderVar var m) := by
+  have hV := S.vars m hP
+  rw [TreeMap.contains_eq_isSome_getElem?] at hv
+  obtain ⟨level, hl⟩ := Option.isSome_iff_exists.mp hv
+  have hlt := hV.lvl_lt hl
+  unfold reorderVar
+  rw [M.bind_ok (M.get_eq m)]
+  have hc : ¬ ((!m.tbl.vars.contains var) = true) := by
+    rw [TreeMap.contains_eq_isSome_getElem?, hl]; simp
+  rw [if_neg hc]
+  have h0 : decide (0 < m.nvars) = true := by simp; omega
+  rw [h0, M.bind_ok (M.assert_true _ _), M.bind_ok (levelOfVar_ok m var level hl)]
+  generalize hse : (if 2 * level ≥ m.nvars - 1 then (m.nvars - 1, 0) else (0, m.nvars - 1)) = se
+  obtain ⟨start, end_⟩ := se
+  have hst : start < m.nvars ∧ end_ < m.nvars ∧ start ≠ end_ := by
+    split at hse <;> cases hse <;> omega
+  dsimp only
+  refine OkSchedAssert.bind (shift_outcome S m hP level start hlt) ?_
+  intro _ m1 ⟨hP1, hR1, hn1, hd1⟩
+  have hshift2 := shift_outcome S m1 hP1 start end_ (by rw [hn1]; exact hst.1)
+  generalize hr2 : shift start end_ m1 = r2 at hshift2
+  obtain ⟨r2, m2⟩ := r2
+  rw [M.bind_eq, hr2]
+  cases r2 with
+  | error e => exact hshift2
+  | ok sizes =>
+    obtain ⟨hP2, hR2, hn2, hd2⟩ := hshift2
+    simp only
+    obtain ⟨k, hk⟩ := argMin_some sizes (shift_sizes_ne start end_ m1 sizes m2 hr2 hst.2.2)
+    rw [hk, M.bind_ok (M.ofOption_some _ _ _)]
+    refine OkSchedAssert.bind (shift_outcome S m2 hP2 end_ k (by rw [hn2, hn1]; exact hst.2.1)) ?_
+    intro _ m3 ⟨hP3, hR3, hn3, hd3⟩
+    rw [M.bind_ok (M.get_eq m3)]
+    by_cases ha : sizes.lookup k = some m3.len
+    · by_cases hb : m3.len ≤ m.len
+      · simp only [ha, hb, decide_true]
+        rw [M.bind_ok (M.assert_true _ _), M.bind_ok (M.assert_true _ _)]
+        exact ⟨hP3, S.trans _ _ _ (S.trans _ _ _ hR1 hR2) hR3, hn3.trans (hn2.trans hn1),
+          fun v hv => hd3 v (hd2 v (hd1 v hv))⟩
+      · simp only [ha, hb, decide_true, decide_false]
+        rw [M.bind_ok (M.assert_true _ _), M.bind_err (M.assert_false _ _)]
+        exact Or.inr rfl
+    · simp only [ha, decide_false]
+      rw [M.bind_err (M.assert_false _ _)]
+      exact Or.inr rfl
+
+theorem siftVars_outcome (S : SwapOK P R) : ∀ (names : List String) (m : Mgr), P m → 2 ≤ m.nvars →
+    (∀ v ∈ names, m.tbl.vars.contains v = true) →
+    OkSchedAssert (fun _ m' => P m' ∧ R m m') (siftVars names m) := by
+  intro names
+  induction names with
+  | nil => intro m hP _ _; exact ⟨hP, S.refl m⟩
+  | cons v rest ih =>
+    intro m hP h2 hd
+    unfold siftVars
+    refine OkSchedAssert.bind (reorderVar_outcome S m hP v (hd v List.mem_cons_self) h2) ?_
+    intro _ m1 ⟨hP1, hR1, hn1, hd1⟩
+    have := ih m1 hP1 (by rw [hn1]; exact h2) (fun w hw => hd1 w (hd w (List.mem_cons_of_mem _ hw)))
+    generalize siftVars rest m1 = r at this
+    obtain ⟨r, m2⟩ := r
+    cases r with
+    | error e => exact this
+    | ok u => exact ⟨this.1, S.trans _ _ _ hR1 this.2⟩
+
 /-- what sifting needs beyond the swap: the initial full collection and the consumption of the
 recorded iteration order keep `P` and `R` -/
 structure SiftEnv (P : Mgr → Prop) (R : Mgr → Mgr → Prop) : Prop extends SwapOK P R where
-  gc : ∀ m m', P m → collectGarbage none m = (.ok (), m') → P m' ∧ R m m'
+  gc : ∀ m, P m → ∃ m', collectGarbage none m = (.ok (), m') ∧ P m' ∧ R m m' ∧
+    m'.tbl.vars = m.tbl.vars
   sched : ∀ m s, P m → P { m with sched := s } ∧ R m { m with sched := s }
 
 theorem takeSiftOrder_inv {m m' : Mgr} {names : List String}
@@ -416,7 +585,9 @@ theorem applySifting_partial (E : SiftEnv P R) (m m' : Mgr) (hP : P m)
   have S := E.toSwapOK
   unfold applySifting at h
   obtain ⟨_, mg, g0, h0⟩ := M.bind_ok_inv h
-  obtain ⟨hPg, hRg⟩ := E.gc m mg hP g0
+  obtain ⟨mg', hrg, hPg, hRg, _⟩ := E.gc m hP
+  rw [g0] at hrg
+  cases hrg
   refine ⟨mg, g0, ?_⟩
   obtain ⟨ma, ma', g1, h1⟩ := M.bind_ok_inv h0
   obtain ⟨e1, e2⟩ := M.get_ok_inv g1
@@ -435,6 +606,62 @@ theorem applySifting_partial (E : SiftEnv P R) (m m' : Mgr) (hP : P m)
     obtain ⟨hle, e⟩ := M.assert_ok_inv h4
     subst e
     exact ⟨hPc, S.trans _ _ _ hRg (S.trans _ _ _ hRb hRc), hnc, of_decide_eq_true hle⟩
+
+theorem takeSiftOrder_outcome (m : Mgr) :
+    OkOrSched (fun names m' => (∃ s, m' = { m with sched := s }) ∧ names.length = m.tbl.vars.size ∧
+        ∀ v ∈ names, m.tbl.vars.contains v = true) (takeSiftOrder m) := by
+  have hkeys : ∀ v ∈ m.tbl.vars.keys, m.tbl.vars.contains v = true := by
+    intro v hv
+    rw [TreeMap.mem_keys] at hv
+    exact TreeMap.contains_iff_mem.mpr hv
+  unfold takeSiftOrder
+  rw [M.bind_ok (M.get_eq m)]
+  cases hs : m.sched with
+  | nil => exact ⟨⟨m.sched, rfl⟩, TreeMap.length_keys, hkeys⟩
+  | cons it rest =>
+    cases it with
+    | swap lv => exact rfl
+    | sift names =>
+      simp only
+      rw [M.bind_ok (M.set_eq _ _)]
+      split
+      · next hc =>
+        simp only [Bool.and_eq_true, beq_iff_eq, List.all_eq_true, List.contains_iff_mem] at hc
+        refine ⟨⟨rest, rfl⟩, ?_, ?_⟩
+        · rw [hc.1.1]; exact TreeMap.length_keys
+        · intro v hv; exact hkeys v (hc.1.2 v hv)
+      · exact rfl
+
+/-- **Sifting, all outcomes**: with at least two variables `_apply_sifting` returns normally (then
+`P` holds and the final state is `R`-related to the initial one), or the model reports a schedule
+mismatch, or one of the size assertions of the sifting code raises `AssertionError` — no other
+exception is possible. -/
+theorem applySifting_outcome (E : SiftEnv P R) (m : Mgr) (hP : P m) (h2 : 2 ≤ m.nvars) :
+    OkSchedAssert (fun _ m' => P m' ∧ R m m') (applySifting m) := by
+  have S := E.toSwapOK
+  obtain ⟨mg, hrun, hPg, hRg, hvg⟩ := E.gc m hP
+  have hng : mg.nvars = m.nvars := by show mg.tbl.vars.size = _; rw [hvg]; rfl
+  unfold applySifting
+  rw [M.bind_ok hrun, M.bind_ok (M.get_eq mg)]
+  refine OkSchedAssert.bind (OkSchedAssert.of_sched (takeSiftOrder_outcome mg)) ?_
+  rintro names mb ⟨⟨s, rfl⟩, hlen, hdecl⟩
+  obtain ⟨hPb, hRb⟩ := E.sched mg s hPg
+  have hne : ¬ (names.isEmpty = true) := by
+    intro he
+    have : names = [] := List.isEmpty_iff.mp he
+    subst this
+    have : mg.nvars = mg.tbl.vars.size := rfl
+    simp at hlen
+    omega
+  rw [if_neg hne]
+  refine OkSchedAssert.bind (siftVars_outcome S names _ hPb (by show 2 ≤ mg.nvars; omega) hdecl) ?_
+  intro _ mc ⟨hPc, hRc⟩
+  rw [M.bind_ok (M.get_eq mc)]
+  by_cases hle : mc.len ≤ mg.len
+  · simp only [hle, decide_true]
+    exact ⟨hPc, S.trans _ _ _ hRg (S.trans _ _ _ hRb hRc)⟩
+  · simp only [hle, decide_false]
+    exact Or.inr rfl
 
 end Abs
 
